@@ -289,6 +289,16 @@ def gen_doc(rng, root, unique=False, size=None):
     if rng.random() < 0.3:
         for _ in range(rng.randint(1, 3)):
             gen_attachment(rng, W, 0, 0, out, root)
+    if not unique and out and rng.random() < 0.2:
+        # the same plain line more than once at one level ("or", "and", "Subject to this Act:"): before, between and after
+        # hierarchical children - grouping must go by position, not by value
+        plain = [i for i, l in enumerate(out) if l.strip() and l.strip().split(' ')[0].split('{')[0].split('.')[0] not in ALL_KEYWORDS
+                 and not l.lstrip().startswith(('*', 'FROM', 'TR', 'TC', 'TH', 'ITEM'))]
+        if plain:
+            i = rng.choice(plain); ind = len(out[i]) - len(out[i].lstrip(' '))
+            sibs = [j for j, l in enumerate(out) if l.strip() and len(l) - len(l.lstrip(' ')) == ind]
+            for j in sorted(rng.sample(sibs, min(len(sibs), rng.randint(1, 3))), reverse=True):
+                out.insert(j + (1 if rng.random() < 0.5 else 0), out[i])
     return '\n'.join(expand_breaks(l) for l in out) + '\n'
 
 def expand_breaks(l):
@@ -394,7 +404,9 @@ def rand_eid(rng, pool):
     if r < 0.35: return None
     if r < 0.40: return ''
     if r < 0.7 and pool: return rng.choice(pool)
-    e = rng.choice(['sec_1', 'sec_2', 'chp_1', 'part_A__sec_1', 'p_1', 'hcontainer_1', 'sec_1__p_1', 'x', 'sec_nn_1', 'para_a', 'chp_1__sec_2'])
+    e = rng.choice(['sec_1', 'sec_2', 'chp_1', 'part_A__sec_1', 'p_1', 'hcontainer_1', 'sec_1__p_1', 'x', 'sec_nn_1', 'para_a', 'chp_1__sec_2',
+                    # ids as a hand-edited document may carry them: surrounding or inner whitespace, other case, odd characters
+                    ' sec_1', 'sec_1__p_1 ', ' sec_2 ', 'sec 1', 'SEC_1', 'Sec_1__P_1', 'sec_1\u00a0', 'sec_\u0661', '#sec_1'])
     pool.append(e)
     return e
 
